@@ -59,7 +59,7 @@ CLAIMED = {
         "contract-based deductive verification, template route: bytecode vs the reference semantics (left-to-right evaluation, by-value copies) on a position x effect template family, all inputs, z3",
         "Per template of the position x effect family (binary/comparison/boolean operators, conditional expression, internal-call arguments incl. nested, assignment and subscript targets, tuple/list literals, builtin/convert/log argument with one effect, "
         "aug-assignment, statement expressions, by-value reads before a later effect) and configuration: for ALL inputs the sequence and payload of logs, the result and the final state equal the reference semantics, "
-        "i.e. every effect happens exactly once and in source order. One genuine Venom defect is listed as a known finding (F9); the legacy operand-order defect F1 was repaired (fix: commit).",
+        "i.e. every effect happens exactly once and in source order. Known findings F9b/F10 (Venom reads multi-word state lazily); F1 (legacy operand order) and F9 (word-sized lazy reads) were repaired (fix: commits).",
         "Trusted: vverif/spec_source.py, bytecode denotation, z3/cvc5. Positions outside the family (external-call arguments, dynamic-array append/pop inside expressions, struct literals) are not covered yet.",
         "DESIGN.md 3/C08",
     ),
